@@ -65,7 +65,7 @@ fn parse_case(line: &str) -> Option<Case> {
 fn convert(ctx: &numbat::Context, out: &mut Out, a: &QDesc, tgt: &[FactorDesc]) -> String {
     let b = q(ONE, tgt.to_vec());
     let ans = match catch(std::panic::AssertUnwindSafe(|| ctx.verif_quantity_op("convert", a, Some(&b)))) {
-        Ok(s) => s,
+        Ok(s) => canon_nan(&s),
         Err(p) => format!("panic {}", p),
     };
     out.line(&format!("convert {} {}", q_text(a), q_text(&b)), &ans);
